@@ -43,7 +43,8 @@ POOL = {
     "pty": [True, False], "replace_env": [True, False], "shell": ["/bin/sh", "zsh"],
     "warn": [True, False], "watchers": [{"list": ["w1"]}, {"list": []}, {"list": ["w1", "w2"]}],
 }
-PARENTS = [{"A": "1", "HOME": "/h"}, {}, {"PATH": "/bin", "B": "0"}]
+PARENTS = [{"A": "1", "HOME": "/h"}, {}, {"PATH": "/bin", "B": "0"},
+           {"SHELL": "/bin/zsh", "HOME": "/h2"}, {"SHELL": "/usr/bin/fish", "COMSPEC": "cmd.exe", "A": "0"}]
 
 
 class Boom(Exception):
@@ -95,7 +96,8 @@ def canon(v):
     if isinstance(v, dict):
         return {"dict": {str(k): str(x) for k, x in v.items()}}
     if isinstance(v, (list, tuple)):
-        return {"list": [x.tag if isinstance(x, Watcher) else str(x) for x in v]}
+        return {"list": [x.tag if isinstance(x, Watcher) else
+                         "<sudo>" if type(x).__name__ == "FailingResponder" else str(x) for x in v]}
     if v is None or isinstance(v, (bool, int, str)):
         return v
     if hasattr(v, "items"):       # DataProxy around a configured dict
@@ -151,11 +153,18 @@ def capturing_class():
         def start(self, command, shell, env, timeout=None):
             self.started = [command, canon(shell), dict(env)]
 
+        def echo(self, command):
+            buf = io.StringIO()
+            with contextlib.redirect_stdout(buf):
+                super().echo(command)
+            self.echoed = getattr(self, "echoed", "") + buf.getvalue()
+            sys.stdout.write(buf.getvalue())
+
         def create_io_threads(self):
             return {}, [], []
 
         def start_timer(self, timeout):
-            pass
+            self.timer_armed = ("armed", timeout)
 
         def read_proc_stdout(self, num_bytes):
             return b""
@@ -212,6 +221,9 @@ def observe(r, exc, res, echo):
             "pty": canon(r.using_pty), "watchers": canon(r.watchers),
             "extra_opts": sorted(k for k in r.opts if k not in OPTS and k != "timeout"),
         }
+    if exc is None and r is not None and hasattr(r, "opts") and hasattr(r, "timer_armed") \
+            and r.timer_armed[1] != r.opts["timeout"]:
+        exc = "timer-armed-with-%r" % (r.timer_armed[1],)     # the Timer must get the resolved timeout
     obs.update({
         "exc": exc, "started": r.started if r is not None else None, "echo": echo if echo else None,
         "kind": "raised" if exc else ("promise" if isinstance(res, Promise) else
@@ -225,12 +237,14 @@ def run_opts(case):
     from invoke import Context
     Cap = capturing_class()
     Cap.instances = []
-    ctx = Context(make_config(case["config"]))
-    r = Cap(ctx)
     kwargs = {k: to_py(v) for k, v in case["kwargs"].items()}
     buf = io.StringIO()
     exc, res = None, None
     with mock.patch.dict(os.environ, case["parent"], clear=True), contextlib.redirect_stdout(buf):
+        # the Config is built under the case's environment: its built-in defaults must not
+        # depend on it (SHELL, COMSPEC, HOME ...)
+        ctx = Context(make_config(case["config"]))
+        r = Cap(ctx)
         try:
             res = r.run(case["command"], **kwargs)
         except Exception as e:
@@ -354,42 +368,59 @@ def stmt_kw(st):
 
 def run_ctx(case):
     from invoke import Context
+    from invoke.exceptions import UnexpectedExit
     Cap = capturing_class()
     Cap.instances = []
     sudo = case["config"].get("sudo", {})
-    cfg = make_config(case["config"], {"sudo": {"prompt": sudo.get("prompt", "[sudo] password: "),
-                                                "user": sudo.get("user"), "password": "pw"},
-                                       "runners": {"local": Cap}})
-    c = Context(cfg)
+    calls = []
 
-    def go(prog):
-        for st in prog:
-            if st[0] == "run":
-                c.run(st[1], **{k: to_py(v) for k, v in stmt_kw(st).items()})
-            elif st[0] == "sudo":
-                c.sudo(st[1], **{k: to_py(v) for k, v in stmt_kw(st).items()})
-            elif st[0] == "raise":
-                raise RAISE[st[1] if len(st) > 1 else "boom"]()
-            elif st[0] == "cd":
-                with c.cd(st[1]):
-                    go(st[2])
-            elif st[0] == "prefix":
-                with c.prefix(st[1]):
-                    go(st[2])
-            elif st[0] == "try":
-                try:
-                    go(st[1])
-                except BaseException:
-                    pass
+    def call(fn, cmd, kw):
+        n0 = len(Cap.instances)
+        exc, res = None, None
+        try:
+            res = fn(cmd, **{k: to_py(v) for k, v in kw.items()})
+        except UnexpectedExit as e:
+            res = e.result                      # the run itself went through; C05's business
+            raise
+        except Exception as e:
+            exc = type(e).__name__
+            raise
+        finally:
+            r = Cap.instances[n0] if len(Cap.instances) > n0 else None
+            calls.append(observe(r, exc, res, getattr(r, "echoed", "") if r is not None else ""))
 
     raised = None
     with mock.patch.dict(os.environ, case["parent"], clear=True), \
             contextlib.redirect_stdout(io.StringIO()), contextlib.redirect_stderr(io.StringIO()):
+        cfg = make_config(case["config"], {"sudo": {"prompt": sudo.get("prompt", "[sudo] password: "),
+                                                    "user": sudo.get("user"), "password": "pw"},
+                                           "runners": {"local": Cap}})
+        c = Context(cfg)
+
+        def go(prog):
+            for st in prog:
+                if st[0] == "run":
+                    call(c.run, st[1], stmt_kw(st))
+                elif st[0] == "sudo":
+                    call(c.sudo, st[1], stmt_kw(st))
+                elif st[0] == "raise":
+                    raise RAISE[st[1] if len(st) > 1 else "boom"]()
+                elif st[0] == "cd":
+                    with c.cd(st[1]):
+                        go(st[2])
+                elif st[0] == "prefix":
+                    with c.prefix(st[1]):
+                        go(st[2])
+                elif st[0] == "try":
+                    try:
+                        go(st[1])
+                    except BaseException:
+                        pass
         try:
             go(case["prog"])
         except BaseException as e:
             raised = type(e).__name__
-    return {"calls": [r.started for r in Cap.instances], "raised": raised,
+    return {"calls": calls, "raised": raised,
             "final": [list(c.command_prefixes), list(c.command_cwds)]}
 
 
@@ -583,7 +614,7 @@ class C15(Prop):
             place(["--prompt-for-sudo-password"], False)
         if rng.random() < 0.4:
             a["config"] = True
-            place([rng.choice(["-f", "--config"]), "@RT"], False)
+            place([rng.choice(["-f", "--config"]), "@RT"])
         env_rt = rng.random() < 0.4
         rng.shuffle(before)
         rng.shuffle(after)
@@ -595,6 +626,10 @@ class C15(Prop):
         for o in rng.sample(sorted(pools), rng.choice([0, 1, 2, 3, 5])):
             lower["run"][o] = rng.choice(pools[o])
             lower["where"][o] = rng.choice(places)
+        if (a.get("config") or env_rt) and rng.random() < 0.7:
+            # a setting only the runtime file has: tells whether that file was really loaded
+            lower["run"]["shell"] = "/rt/shell"
+            lower["where"]["shell"] = "runtime"
         if rng.random() < 0.35:
             lower["timeout"] = rng.choice([9, 20])
             lower["where"]["timeout"] = rng.choice(places)
@@ -753,7 +788,7 @@ class C15(Prop):
         sudo = case["config"].get("sudo", {})
         cc = "(mkCC %s %s %s %s)" % (cfgterm(case["config"]), ct.s(sudo.get("prompt", "[sudo] password: ")),
                                      oval(sudo.get("user")), envterm(case["parent"]))
-        calls = ct.lst([started_term(x) for x in obs["calls"]])
+        calls = ct.lst([self.outcome_term(x) for x in obs["calls"]])
         final = "(mkC %s %s)" % (ct.strs(obs["final"][0]), ct.strs(obs["final"][1]))
         r = obs["raised"]
         if isinstance(r, bool):      # first-generation observations
